@@ -294,6 +294,8 @@ func (c *RetryClient) SetClient(ctx context.Context, cli *BaseClient) {
 	go func() {
 		connected := false
 		ctx := context.Background()
+		// chConnSwitch of the client which the loop is connected to.
+		var chConnSwitch chan struct{}
 
 	L_TASK:
 		for {
@@ -302,7 +304,7 @@ func (c *RetryClient) SetClient(ctx context.Context, cli *BaseClient) {
 				for {
 					c.mu.RLock()
 					chConnectErr := c.chConnectErr
-					chConnSwitch := c.chConnSwitch
+					chConnSwitch = c.chConnSwitch
 					c.mu.RUnlock()
 					select {
 					case _, ok := <-chConnectErr:
@@ -316,7 +318,6 @@ func (c *RetryClient) SetClient(ctx context.Context, cli *BaseClient) {
 			}
 
 			c.mu.Lock()
-			chConnSwitch := c.chConnSwitch
 			select {
 			case <-chConnSwitch:
 				c.mu.Unlock()
